@@ -26,6 +26,7 @@ fn main() {
                 "C14" => c14::run(&Ctx::new("C14", &tier)),
                 "C06" => c06::run(&Ctx::new("C06", &tier)),
                 "probe" => probe::run(&args[2..]),
+                "probe-many" => probe::run_many(&args[2..]),
                 "c14-dump" => c14::dump(&args[2..]),
                 "c06-dump" => c06::dump(&args[2..]),
                 "replay" => replay(&args[2]),
